@@ -186,10 +186,14 @@ def run(tier, res, is_known):
                         'results within 1e-9 of a truncation boundary accept the neighbours (boundary_ambiguous)']
     product(group, its, res, is_known, label='sizing grid', sample_every=397)
     product(refusal, refusal_items(), res, is_known, label='refusal grid')
+    product(wiring_refusal, [(via, bad) for via in ('qts', 'session') for bad in [0, 0.0, -0.0, -1.0]], res, is_known,
+            label='refusals through the system wiring')
 
 
 def replay(case):
     from qstrader.portcon.order_sizer.long_short import LongShortLeveragedOrderSizer
+    if case['kind'] == 'wiring':
+        return wiring_refusal(tuple(case['item']))['viols']
     if case['kind'] == 'refusal':
         return refusal(tuple(case['item']))['viols']
     dh = PriceStub()
@@ -197,3 +201,35 @@ def replay(case):
     sizer = LongShortLeveragedOrderSizer(broker, 'p', dh, gross_leverage=float(fw(case['leverage'])))
     f, _, _ = check_call(sizer, dh, case['equity'], case['leverage'], case['rate'], case['weights'], case['asks'])
     return f
+
+
+def wiring_refusal(item):
+    """the same invalid sizing parameter given through QuantTradingSystem / BacktestTradingSession must be refused too"""
+    import pandas as pd
+    from qstrader.system.qts import QuantTradingSystem
+    from qstrader.trading.backtest import BacktestTradingSession
+    from qstrader.asset.universe.static import StaticUniverse
+    from qstrader.alpha_model.fixed_signals import FixedSignalsAlphaModel
+    via, bad = item
+    dh = PriceStub()
+    dh.ask = {'EQ:AAA': 9.99}
+    uni = StaticUniverse(['EQ:AAA'])
+    alpha = FixedSignalsAlphaModel({'EQ:AAA': 1.0})
+    viols = []
+    case = {'kind': 'wiring', 'item': list(item)}
+    kw = dict(long_only=False, gross_leverage=bad)
+    try:
+        if via == 'qts':
+            broker = make_broker('10007', '0.001', dh)
+            QuantTradingSystem(uni, broker, 'p', dh, alpha, **kw)
+        else:
+            t0 = pd.Timestamp('2020-03-02 14:30:00', tz='UTC')
+            BacktestTradingSession(t0, t0 + pd.Timedelta(days=3), uni, alpha, rebalance='daily', data_handler=dh, **kw)
+        viols.append({'clause': 'C11.refusal_missing', 'signature': 'wiring:%s' % via, 'case': case,
+                      'detail': {'via': via, 'value': bad, 'what': 'invalid sizing parameter accepted'}})
+    except ValueError:
+        pass
+    except Exception as e:  # noqa
+        viols.append({'clause': 'C11.refusal_type', 'signature': 'wiring:%s' % via, 'case': case,
+                      'detail': {'via': via, 'value': bad, 'error': repr(e)}})
+    return {'viols': viols, 'execs': 1, 'evals': 1, 'nontrivial': True, 'outcome': ('wiring', via, bad)}
